@@ -42,6 +42,10 @@ PROPS = {
     'C07': dict(level='proof', units=lambda tier: [verus(IO, ['frame', 'spec', 'model'])],
                 explanation='Unbounded deductive proof (Verus) of the error-exit postconditions of write/flush: an Err result is the socket error, leaves pending and wire unchanged.',
                 assumptions=STD_ASSUME + [BUFWRITER]),
+    'C01': dict(level='other', engine='verus+kani', units=lambda tier: [verus(BUILDER, ['code', 'spec', 'model']), kani(['client_conv', 'types_err', 'client_c03', 'builder_c04', 'client_builder', 'builder_ctor'])],
+                technique='contract-based deductive verification: Verus postconditions against a spec function line(f) on the formatter extracted from /repo each run; Kani Hoare triples on the real client/constructor plumbing with format replaced by its contract',
+                explanation='Verus (unbounded): the extracted bodies of format, write_base_metric, write_sampling_rate, write_tags, write_container_id, write_timestamp, write_value, both Display impls, from_val and the seven kind constructors, with_tag/.. are proved against line(f) = name:values|type[|@rate][|#tags][|c:id][|Ttimestamp] for all field values (numeric renderings uninterpreted = std Display, trusted). Kani: every client entry point builds the formatter of the kind called with the client prefix, the key and the converted value (structure triples, bounded in tag count), hands the sink exactly the formatted text (C03 triples), standalone constructors build the same formatter (complete), formatted_prefix on enumerated prefixes (bounded), accepted packed lists are non-empty (complete). The parse-back (round-trip) sentence is NOT machine-checked in this revision: it is a property of line() alone and is argued in DESIGN.md; level is therefore "other", not "proof".',
+                assumptions=KANI_ASSUME + STD_ASSUME + ['std Display for i64/u64/f64/&str appends the canonical numeral / the string (uninterpreted dec_* functions); write! appends its pieces in order (rule X3); String: fmt::Write is infallible', 'parse(line(f)) == f for delimiter-free fields is not machine-checked']),
     'C02': dict(level='other', engine='kani', units=lambda tier: [kani(['client_conv'])],
                 technique='contract-based verification: Hoare triples on the real To*Value::try_to_value impls, discharged by Kani/CBMC over full input domains (Vec<Duration> lists bounded)',
                 explanation='Kani contracts on the 22 real conversion impls in cadence/src/client.rs: scalar integers and floats over the whole type range (loop-free => complete), packed u64/f64 lists by buffer identity for every (len, capacity), Duration->ms/ns over all (secs, nanos) against 128-bit reference arithmetic (complete). Vec<Duration> impls are BOUNDED (list length 1..2 quick, 1..3 thorough) and listed under bounded_checks. The decimal rendering of the numbers (std Display) is trusted, not verified; rendering order of packed lists is the Verus obligation of C01 (write_value).',
